@@ -23,5 +23,5 @@ func (R *Repository) VerifSetReader(r crlreader.CRLReader) { R.crlReader = r }
 
 func (R *Repository) VerifSetLoaderFactory(f crlloader.CRLLoaderFactory) { R.crlLoaderFactory = f }
 
-func (E *Entry) VerifLock()    { E.entryLock.Lock() }
-func (E *Entry) VerifUnlock()  { E.entryLock.Unlock() }
+func (E *Entry) VerifLock()   { E.entryLock.Lock() }
+func (E *Entry) VerifUnlock() { E.entryLock.Unlock() }
